@@ -30,6 +30,11 @@ imported; non-existent module / attribute, non-snowflake function, also inside a
 passed in ONE target list; whatever the outcome, a correct patch() listing the real targets of the modules involved
 follows, and every step is judged by the same clauses (quick: pairs with at least one failing target).
 
+CHAIN.  Helper modules that import each other (c20h_lazy_a imports c20h_lazy_b imports c20h_lazy_c: plain import and
+aliased from-import) are listed in both orders, partially, and the importer alone; each list is entered three times
+with both exit modes in between.  Not exercised: listing, in a LATER patch(), a name of a module that an earlier
+patch() only loaded as a side effect without listing it (see the round-5 report: it fails on the unchanged tree).
+
 PAIRS.  Besides the BFS, every ordered pair (a, b) of target lists (quick: b from PAIR_SECOND_QUICK) is executed as "block with a, left normally if it
 could be entered; then enter with b" with the full set of probes, so that what patch() may remember of an earlier call
 (valid extras then none, failing extras then none, extras A then extras B) is judged inside the later block.
@@ -135,6 +140,15 @@ HELPER_SRC = {
         "from snowflake.connector import connect as sf_connect  # noqa: F401\n"
         "from snowflake.connector.pandas_tools import write_pandas as connect  # noqa: F401\n"
     ),
+    # helper modules that import each other (plain import, aliased from-import): importing c20h_lazy_a loads
+    # c20h_lazy_b, which loads c20h_lazy_c - "already in sys.modules although this patch() did not import it itself"
+    "c20h_lazy_a": "import c20h_lazy_b  # noqa: F401\nfrom snowflake.connector import connect  # noqa: F401\n",
+    "c20h_lazy_b": (
+        "from c20h_lazy_c import MARK as _MARK  # noqa: F401\n"
+        "from snowflake.connector import connect  # noqa: F401\n"
+        "from snowflake.connector.pandas_tools import write_pandas as sf_write_pandas  # noqa: F401\n"
+    ),
+    "c20h_lazy_c": "MARK = 1\nfrom snowflake.connector import connect as sf_connect  # noqa: F401, E402\n",
 }
 # the c20h_lazy* modules are deliberately not imported before the first patch() that names them
 PREIMPORTED = ("c20h_conn", "c20h_wp", "c20h_alias")
@@ -155,6 +169,10 @@ WATCHED = [
     ("unimported-unaliased-beside-alias", "c20h_lazy_alias", "connect", "connect"),
     ("unimported2-aliased-connect", "c20h_lazy_alias2", "sf_connect", "connect"),
     ("unimported2-write_pandas-named-connect", "c20h_lazy_alias2", "connect", "write_pandas"),
+    ("chain-a-connect", "c20h_lazy_a", "connect", "connect"),
+    ("chain-b-connect", "c20h_lazy_b", "connect", "connect"),
+    ("chain-b-aliased-write_pandas", "c20h_lazy_b", "sf_write_pandas", "write_pandas"),
+    ("chain-c-aliased-connect", "c20h_lazy_c", "sf_connect", "connect"),
 ]
 KINDS = [w[0] for w in WATCHED]
 N_PRE = sum(1 for w in WATCHED if not w[1].startswith("c20h_lazy"))
@@ -205,6 +223,10 @@ SINGLE_VALID = {
     "unimported-aliased-connect": f"{LA}.sf_connect",
     "unimported-aliased-write_pandas": f"{LA}.sf_write_pandas",
     "unimported2-write_pandas-named-connect": f"{LA2}.connect",
+    "chain-a-connect": "c20h_lazy_a.connect",
+    "chain-b-connect": "c20h_lazy_b.connect",
+    "chain-b-aliased-write_pandas": "c20h_lazy_b.sf_write_pandas",
+    "chain-c-aliased-connect": "c20h_lazy_c.sf_connect",
 }
 SINGLE_FAILING = {
     "nonexistent-module": "c20h_nomod.connect",
@@ -238,9 +260,28 @@ for _a, _ta in SINGLES.items():
         TARGET_LISTS[f"real:{_a}+{_b}"] = (_real_targets(_ta, _tb), True)
 
 
+# ---- modules that import each other: both orders of (importer's target, imported module's targets), and one only -----
+_CA, _CB, _CC = ["c20h_lazy_a.connect"], ["c20h_lazy_b.connect", "c20h_lazy_b.sf_write_pandas"], ["c20h_lazy_c.sf_connect"]
+CHAIN_LISTS = {
+    "chain:a,b": _CA + _CB,
+    "chain:b,a": _CB + _CA,
+    "chain:a,b,c": _CA + _CB + _CC,
+    "chain:c,b,a": _CC + _CB + _CA,
+    "chain:a,c": _CA + _CC,
+    "chain:b,c": _CB + _CC,
+    "chain:a": _CA,
+}
+for _k, _v in CHAIN_LISTS.items():
+    TARGET_LISTS[_k] = (_v, True)
+
+
 def combined_pairs(tier):
     """quick: every pair with at least one failing single (both orders); thorough: every ordered pair"""
-    return [(a, b) for a in SINGLES for b in SINGLES if tier != "quick" or a in SINGLE_FAILING or b in SINGLE_FAILING]
+    # (two targets of the modules that import each other are covered by CHAIN_LISTS instead: a partial list followed
+    # by the modules' remaining names is the side-effect-loaded-module case that is not exercised, see CHAIN)
+    both_chain = lambda a, b: a.startswith("chain-") and b.startswith("chain-")  # noqa: E731
+    # chain x chain pairs (an earlier patch() loads a module only as a side effect, a later one lists it) run in both tiers
+    return [(a, b) for a in SINGLES for b in SINGLES if tier != "quick" or a in SINGLE_FAILING or b in SINGLE_FAILING or both_chain(a, b)]
 # quick tier: the target lists above minus these (they only multiply the lazily-imported-module states)
 THOROUGH_ONLY = ["unimported-cross-named", "unimported-aliased+nonexistent-attr"]
 NESTED_INNER_QUICK = ["none", "from-import-connect", "unimported-module", "unimported-aliased", "nonexistent-module"]
@@ -786,6 +827,20 @@ def work_combined(item, acc, tier):
     return n
 
 
+def work_chain(item, acc, tier):
+    """Target lists over helper modules that import each other (a module is in sys.modules although this patch() did
+    not import it itself): enter, leave (each mode first), enter the same list again, leave the other way, once more."""
+    tlid = item[1]
+    n = 0
+    with sandbox("c20n", {f"{m}.py": s for m, s in HELPER_SRC.items()}):
+        for first, second in (("normal", "exception"), ("exception", "normal")):
+            ops = [("enter", tlid), ("exit", first), ("enter", tlid), ("exit", second), ("enter", tlid), ("exit", "normal")]
+            n += run_scenario(ops, acc, "patch_chain_transitions")
+        if tlid == "chain:a,b":
+            acc.sample({"part": "patch-chain", "targets": CHAIN_LISTS[tlid], "helper_modules": {m: HELPER_SRC[m] for m in ("c20h_lazy_a", "c20h_lazy_b", "c20h_lazy_c")}})
+    return n
+
+
 def work_pairs(item, acc, tier):
     """Every ordered pair of target lists: a block with list a (left normally if it could be entered), then enter
     with list b - what patch() remembers of an earlier call must not show in a later one."""
@@ -1243,6 +1298,8 @@ def work(item, acc, tier):
         return work_pairs(item, acc, tier)
     if tag == "patch-combined":
         return work_combined(item, acc, tier)
+    if tag == "patch-chain":
+        return work_chain(item, acc, tier)
     if tag in ("argv", "argv-short", "argv-shaped"):
         return work_argv(item, acc, tier)
     if tag == "options":
@@ -1326,6 +1383,9 @@ def run(ctx: core.Ctx):
     # ---- patch: every ordered pair of single targets in one target list, then the real targets
     ctx.pmap(work, [("patch-combined", a) for a in SINGLES], chunk=1)
     ctx.extra["patch_combined_target_lists"] = len(combined_pairs(tier))
+    # ---- patch: target lists over helper modules that import each other
+    ctx.pmap(work, [("patch-chain", t) for t in CHAIN_LISTS], chunk=1)
+    ctx.extra["patch_chain_target_lists"] = {k: list(v) for k, v in CHAIN_LISTS.items()}
     for st in seen:
         ctx.acc.add("states", st)
     ctx.acc.counters["patch_max_depth"] = depth
